@@ -10,7 +10,7 @@ VERIFIES = (KH_VERIFY, ROOT_VERIFY, DELEG_VERIFY)
 
 
 def run(chk, prog):
-    chk.rules_live = ["R1", "R2", "R3", "R4", "R5", "R6", "R7", "R8", "R9", "R10"]
+    chk.rules_live = ["R1", "R2", "R3", "R4", "R5", "R6", "R7", "R8", "R9", "R10", "R11"]
     chk.explanation = (
         "Structural writer/reader rules over the editor: SignedRole is constructed only where its "
         "digest and length are computed from the very buffer that is written; snapshot/timestamp "
@@ -31,6 +31,7 @@ def run(chk, prog):
     r8_target_path(chk, prog)
     r9_target_names(chk, prog)
     r10_removal(chk, prog)
+    r11_sign_order(chk, prog)
 
 
 def r1_signed_role(chk, prog):
@@ -123,6 +124,13 @@ def r1_signed_role(chk, prog):
             ok = any(o.fields[-1:] == ("buffer",) for o in data)
             pth = deep_origins(wctx, t.args[0], 5)
             ok = ok and any(is_call(o, "std::path::Path::join") for o in pth) and any(is_call(o, "tough::schema::Role::filename") for o in pth)
+        # ... on every path to Ok (an existing file is overwritten, not kept)
+        wbb = [bb for bb, t in wctx.calls("tokio::fs::write::write", "std::fs::write")]
+        errb = [bb for bb, t in wctx.calls("core::ops::try_trait::FromResidual::from_residual")]
+        p_ = wctx.cfg.witness_path(wctx.cfg.return_blocks(), (), removed_blocks=wbb + errb)
+        chk.require(bool(wbb) and p_ is None, "R3", wctx.fn, "always-writes",
+                    "SignedRole::write can return Ok without having written the buffer (e.g. when a file of that name "
+                    "exists): snapshot/timestamp would describe bytes that are not on disk", path=wctx.describe_path(p_))
         chk.require(ok, "R3", wctx.fn, "writes-buffer-under-role-filename",
                     "SignedRole::write does not write exactly self.buffer to outdir.join(self.signed.signed.filename(..))")
 
@@ -482,3 +490,25 @@ def r10_removal(chk, prog):
                         "%s can return without having removed the name from self.%s (when that set exists): a target "
                         "that was updated and then removed in one session comes back with its old content"
                         % (fn.split("::")[-1], fld), path=ctx.describe_path(p))
+
+
+def r11_sign_order(chk, prog):
+    """sign(): the path-ownership validation and the snapshot are computed on the targets as they are
+    AFTER the pending targets editor was merged and signed"""
+    ctx = async_body(prog, ED + "sign")
+    if ctx is None:
+        chk.anchor_missing("R11", ED + "sign")
+        return
+    ste = ctx.calls(ED + "sign_targets_editor")
+    pos = []
+    for bb, t in ste:
+        pos.extend(ctx.track_call(bb).pos_edges(0))
+    later = [bb for bb, t in ctx.calls("tough::schema::Targets::validate", ED + "build_snapshot",
+                                       "tough::editor::signed::SignedRole::from_signed", "tough::schema::Targets::signed_delegated_targets")]
+    p = ctx.cfg.witness_path(later, pos)
+    chk.require(bool(ste) and bool(pos) and bool(later) and p is None, "R11", ctx.fn, "pending-edits-merged-first",
+                "sign() validates / describes / serialises the targets on a path where the pending targets editor has not "
+                "been merged and signed yet: edits still pending in the editor escape the path-ownership validation",
+                path=ctx.describe_path(p))
+    n = len(ctx.calls("tough::schema::Targets::validate"))
+    chk.require(n >= 1, "R11", ctx.fn, "validates", "sign() does not run Targets::validate()")
